@@ -167,6 +167,59 @@ type Ctx struct {
 	ntSeen   map[uint64]struct{}
 	sampleEvery int64
 	Replaying bool
+	cur       atomicCase
+	outFile   string
+}
+
+type atomicCase struct {
+	mu   sync.Mutex
+	cs   Case
+	seq  int64
+	set  bool
+}
+
+// Current records the case about to be executed so that the watchdog can attribute a hang
+// (or a fatal error of the worker) to it.
+func (c *Ctx) Current(cs Case) {
+	c.cur.mu.Lock()
+	c.cur.cs = cs
+	c.cur.seq++
+	c.cur.set = true
+	c.cur.mu.Unlock()
+}
+
+// startWatchdog reports a case that makes no progress for `limit` as a violation of class "hang",
+// flushes the partial results and ends the worker (the run is then marked not exhaustive).
+func (c *Ctx) startWatchdog(limit time.Duration) {
+	go func() {
+		var lastSeq int64 = -1
+		var since time.Time
+		for {
+			time.Sleep(500 * time.Millisecond)
+			c.cur.mu.Lock()
+			seq, cs, set := c.cur.seq, c.cur.cs, c.cur.set
+			c.cur.mu.Unlock()
+			if !set {
+				continue
+			}
+			if seq != lastSeq {
+				lastSeq, since = seq, time.Now()
+				continue
+			}
+			if time.Since(since) > limit {
+				p := c.P // racy snapshot is acceptable: the worker is stuck
+				p.Capped = true
+				p.NewViolCount = map[string]int64{"hang": 1}
+				p.NewViols = []Viol{{Class: "hang", Detail: fmt.Sprintf("no progress for %v", limit), Case: cs}}
+				b, _ := json.Marshal(&p)
+				if c.outFile != "" {
+					os.WriteFile(c.outFile, b, 0o644)
+				}
+				fmt.Fprintf(os.Stderr, "watchdog: case %s hangs\n", cs.Printable())
+				os.Exit(0)
+			}
+		}
+	}()
 }
 
 const maxExamplesPerClass = 5
@@ -330,6 +383,7 @@ type Check struct {
 	QuickCap  time.Duration // internal deadline (exit 0 with exhaustive:false when hit)
 	ThoroughCap time.Duration
 	Workers   int // 0 = all cores; 1 = in-process single
+	HangLimit time.Duration // >0: a case making no progress for this long is reported as class "hang"
 	Run       func(c *Ctx)
 	// Replay re-runs one case without the explorer.
 	Replay func(c *Ctx, cs Case) *Viol
@@ -465,8 +519,12 @@ func Main(args []string) int {
 		// worker role
 		c := NewCtx(id, tier, worker, of)
 		c.Seed = seed
+		c.outFile = out
 		if capDur > 0 {
 			c.Deadline = time.Now().Add(capDur)
+		}
+		if ch.HangLimit > 0 {
+			c.startWatchdog(ch.HangLimit)
 		}
 		ch.Run(c)
 		b, _ := json.Marshal(&c.P)
